@@ -34,6 +34,8 @@ import interp
 
 KEY_F6 = "c-mod:possibly-negative-numerator-emitted-as-c-remainder"
 KEY_F7 = "free:placed-before-use-through-window-alias"
+KEY_STRIDE = "stride-ref:renamed-window-uses-symbol-name-not-c-name"
+KEY_F10 = "cc-error:array-subscript-is-not-an-integer"
 
 CFLAGS = ["-std=gnu11", "-O1", "-g", "-Wall", "-Wextra", "-Wno-unused-parameter", "-Wno-unknown-pragmas",
           "-fsanitize=address,undefined", "-fno-sanitize-recover=all"]
@@ -240,6 +242,30 @@ def x_extern64(n: size, x: f64[n], y: f64[n]):
     for i in seq(0, n):
         y[i] = relu(x[i]) + select(x[i], y[i], 1.0, 2.0) + fmaxf(x[i], y[i])
 ''')
+
+
+_add("x_inline_win", '''
+@proc
+def inl_callee(n: size, src: [f32][n, n], dst: [f32][n]):
+    w = src[0:n, 0]
+    for i in seq(0, n):
+        dst[i] = w[i]
+
+@proc
+def x_inline_win(n: size, A: f32[n, n], y: f32[n]):
+    w = A[0, 0:n]
+    for i in seq(0, n):
+        y[i] = w[i]
+    inl_callee(n, A[0:n, 0:n], y[0:n])
+    y[0] += w[0]
+''')
+
+# schedules applied by the observer to the program as written (besides the sampled stream)
+EXTRA_SCHED = {
+    "x_inline_win": [{"op": "inline", "path": [["body", 2]], "args": {}}],
+    "call_sub": [{"op": "inline", "path": [["body", 0], ["body", 0]], "args": {}}],
+    "x_scalar_ref": [{"op": "inline", "path": [["body", 3], ["body", 1]], "args": {}}],
+}
 
 
 # ---------------------------------------------------------------------------------- unit
@@ -501,6 +527,17 @@ def free_before_alias_use(ir):
 
     block(q.body, {})
     return hits
+
+
+def stride_name_clash(ctext):
+    """does some emitted access `X.data[ ... Y.strides[k] ... ]` (or window construction from X) use the
+    strides of a different variable Y, where X is Y renamed by new_varname (`Y_<n>`)?"""
+    for m in re.finditer(r"(\w+)\.data\[([^\]\n]*)", ctext):
+        x = m.group(1)
+        for y in re.findall(r"(\w+)\.strides\[", m.group(2)):
+            if y != x and re.fullmatch(re.escape(y) + r"_\d+", x):
+                return True
+    return False
 
 
 class Unit:
@@ -842,6 +879,47 @@ def exc_class(e):
     return type(e).__name__
 
 
+def _resync(I):
+    """the Sem driver answered with an unparsable (empty) line: the real answer is the next one"""
+    import common
+
+    for _ in range(4):
+        line = I.drv.p.stdout.readline()
+        if not line:
+            break
+        if line.strip():
+            try:
+                return json.loads(line)
+            except json.JSONDecodeError:
+                continue
+    raise common.InfraError("Sem driver: unparsable answer")
+
+
+def safe_run(I, pj, ins):
+    import common
+
+    if not ins:
+        return []
+    try:
+        return I.run(pj, ins)
+    except json.JSONDecodeError:
+        r = _resync(I)
+        if "results" not in r:
+            raise common.InfraError(f"Sem driver: {str(r)[:200]}")
+        return r["results"]
+
+
+def safe_gen_inputs(I, pj, cfgs, rng, n, small=False):
+    for attempt in range(3):
+        try:
+            return I.gen_inputs(pj, cfgs, rng, n, small=small)
+        except json.JSONDecodeError:
+            _resync(I)
+    import common
+
+    raise common.InfraError("Sem driver: unparsable answers")
+
+
 def check_proc(p, I, rng, counts, n_inputs=3, tag="", workdir=None, keep=None, small=False, fixed_inputs=None):
     """compile + run one procedure.  Returns list of findings."""
 
@@ -868,11 +946,11 @@ def check_proc(p, I, rng, counts, n_inputs=3, tag="", workdir=None, keep=None, s
     if fixed_inputs is not None:
         ins = fixed_inputs
     else:
-        ins0, _ = I.gen_inputs(unit.pj, unit.cfgs, rng, n_inputs, small=small)
+        ins0, _ = safe_gen_inputs(I, unit.pj, unit.cfgs, rng, n_inputs, small=small)
         ins = [adapt_input(unit, i, rng) for i in ins0]
     if not ins:
         cnt("no-valid-input")
-    res = I.run(unit.pj, ins) if ins else []
+    res = safe_run(I, unit.pj, ins)
     judged = []
     for i, r in zip(ins, res):
         if "ok" not in r:
@@ -943,7 +1021,7 @@ def check_proc(p, I, rng, counts, n_inputs=3, tag="", workdir=None, keep=None, s
             if unit.has_mod:
                 if ptr_sens is None:
                     ptr_sens = trunc_mod_json(unit.pj)
-                rt = I.run(ptr_sens, [inp])[0]
+                rt = safe_run(I, ptr_sens, [inp])[0]
                 if rt != r:
                     # the input distinguishes C's remainder from floor modulo
                     explained = ("ok" not in rt) or (kind == "diff" and compare_out(unit, inp, rt, out) is None) or kind == "abort"
@@ -954,6 +1032,8 @@ def check_proc(p, I, rng, counts, n_inputs=3, tag="", workdir=None, keep=None, s
                     f7 = free_before_alias_use(unit.ir)
                 if f7 and san == "heap-use-after-free":
                     key = KEY_F7
+            if key is None and stride_name_clash(unit.c):
+                key = KEY_STRIDE
             if key is None:
                 if kind == "abort":
                     key = f"abort:{san}"
